@@ -1,7 +1,11 @@
-(* C25 — Built-in filters honour their documented contracts.  Property theorems only. *)
-From Coq Require Import String Sorted Permutation.
-From LiquidVerif Require Import Prelude PyPrims Filters Filters_Proofs.
-Local Open Scope string_scope. Local Open Scope list_scope.
+(* C25 — Built-in filters honour their documented contracts.  Property theorems only.
+   First part (Filters.v): truncate, truncatewords, split/join, sort, uniq, compact, reverse, concat, where/reject, integer
+   arithmetic, default, size, slice, first/last on arrays.  Second part (Filters2.v): case and whitespace filters,
+   strip_newlines, sort_natural, map, default and first/last on every value, and the number filters on ints and decimals
+   against exact rational arithmetic (Coq's Q). *)
+From Coq Require Import String Sorted Permutation ZArith QArith Qabs.
+From LiquidVerif Require Import Prelude PyPrims Filters Filters_Proofs Filters2 Filters2_Proofs Filters2_Num_Proofs.
+Local Open Scope Z_scope. Local Open Scope nat_scope. Local Open Scope string_scope. Local Open Scope list_scope.
 
 (* truncate: unchanged when it fits; otherwise a prefix plus the ellipsis, no longer than max(limit, ellipsis) —
    for every string, every integer limit (negative included) and every ellipsis *)
@@ -141,7 +145,256 @@ Theorem C25_first_last : forall x l,
 Proof. exact first_last_contract. Qed.
 Print Assumptions C25_first_last.
 
+
+(* ====================================================================== *)
+(* second part                                                             *)
+
+(* upcase / downcase (ASCII): a letter of the other case moves by 32, every other character stays; the filters work
+   character by character, leave no letter of the other case, are idempotent and do not disturb a case-insensitive
+   comparison *)
+Theorem C25_case_chars : forall c,
+  ((is_lower c -> up c = (c - 32)%N /\ is_upper (up c)) /\ (~ is_lower c -> up c = c)) /\
+  ((is_upper c -> low c = (c + 32)%N /\ is_lower (low c)) /\ (~ is_upper c -> low c = c)).
+Proof. intro c. split; [apply up_char|apply low_char]. Qed.
+Print Assumptions C25_case_chars.
+
+Theorem C25_upcase : forall s : str,
+  length (map up s) = length s /\
+  (forall i, nth i (map up s) 0%N = up (nth i s 0%N)) /\
+  Forall (fun c => ~ is_lower c) (map up s) /\
+  map up (map up s) = map up s /\
+  map low (map up s) = map low s.
+Proof. exact upcase_contract. Qed.
+Print Assumptions C25_upcase.
+
+Theorem C25_downcase : forall s : str,
+  length (map low s) = length s /\
+  (forall i, nth i (map low s) 0%N = low (nth i s 0%N)) /\
+  Forall (fun c => ~ is_upper c) (map low s) /\
+  map low (map low s) = map low s /\
+  map up (map low s) = map up s.
+Proof. exact downcase_contract. Qed.
+Print Assumptions C25_downcase.
+
+(* capitalize: first character upper-cased, the rest lower-cased *)
+Theorem C25_capitalize :
+  capitalize_s [] = [] /\
+  (forall c r, capitalize_s (c :: r) = up c :: map low r) /\
+  (forall s, length (capitalize_s s) = length s) /\
+  (forall s, capitalize_s (capitalize_s s) = capitalize_s s).
+Proof. exact capitalize_contract. Qed.
+Print Assumptions C25_capitalize.
+
+(* what a string filter does with a value that is not a string *)
+Theorem C25_string_filter_inputs : forall f : str -> str,
+  (forall s, str_filter1 f (VStr s) = FOk (VStr (f s))) /\
+  str_filter1 f VNil = FOk (VStr (f [])) /\ str_filter1 f VUndef = FOk (VStr (f [])) /\
+  (forall z, str_filter1 f (VInt z) = FOk (VStr (f (Z_to_str z)))) /\
+  (forall b, str_filter1 f (VBool b) = FOk (VStr (f (if b then lit "True" else lit "False")))).
+Proof. exact string_filter_inputs. Qed.
+Print Assumptions C25_string_filter_inputs.
+
+(* lstrip / rstrip / strip remove exactly the leading / trailing / surrounding run of whitespace *)
+Theorem C25_lstrip : forall s : str,
+  exists a, s = a ++ lstrip_s s /\ all_space a /\ starts_nonspace (lstrip_s s).
+Proof. exact lstrip_contract. Qed.
+Print Assumptions C25_lstrip.
+
+Theorem C25_rstrip : forall s : str,
+  exists b, s = rstrip_s s ++ b /\ all_space b /\ ends_nonspace (rstrip_s s).
+Proof. exact rstrip_contract. Qed.
+Print Assumptions C25_rstrip.
+
+Theorem C25_strip : forall s : str,
+  exists a b, s = a ++ strip_s s ++ b /\ all_space a /\ all_space b /\
+              starts_nonspace (strip_s s) /\ ends_nonspace (strip_s s).
+Proof. exact strip_contract. Qed.
+Print Assumptions C25_strip.
+
+(* strip_newlines: the result is the one string allowed by the relation SN (every LF goes, with a CR directly before it;
+   nothing else); it contains no LF; a string without LF is unchanged; idempotent; all other characters kept in order *)
+Theorem C25_strip_newlines : forall s : str,
+  (forall o, SN s o <-> o = strip_newlines_s s) /\
+  ~ In 10%N (strip_newlines_s s) /\
+  (~ In 10%N s -> strip_newlines_s s = s) /\
+  strip_newlines_s (strip_newlines_s s) = strip_newlines_s s /\
+  filter (fun c => negb (c =? 10)%N && negb (c =? 13)%N) (strip_newlines_s s) =
+  filter (fun c => negb (c =? 10)%N && negb (c =? 13)%N) s.
+Proof. exact strip_newlines_contract. Qed.
+Print Assumptions C25_strip_newlines.
+
+(* sort_natural: a new list with the same items in ascending order of their lower-cased text, equal keys in their
+   original order *)
+Theorem C25_sort_natural : forall l : list val,
+  (forall x, In x l -> match x with VList _ => False | _ => True end) ->
+  (forall x, In x l -> py_str x <> None) ->
+  exists l', f_sort_natural (VList l) = FOk (VList l') /\
+             Permutation l' l /\
+             StronglySorted (fun a b => str_leb (lkey a) (lkey b) = true) l' /\
+             (forall k, filter (same_key k) l' = filter (same_key k) l).
+Proof. exact sort_natural_contract. Qed.
+Print Assumptions C25_sort_natural.
+
+(* the keys: case-insensitive for strings; nil sorts as none, numbers as their digits, booleans as true / false;
+   same_key k means: the key equals k *)
+Theorem C25_sort_natural_keys :
+  ((forall s, lkey (VStr s) = map low s) /\
+   (forall s, lkey (VStr (map up s)) = lkey (VStr s)) /\
+   lkey VNil = lit "none" /\
+   (forall z, lkey (VInt z) = map low (Z_to_str z)) /\
+   lkey (VBool true) = lit "true" /\ lkey (VBool false) = lit "false") /\
+  (forall k x, same_key k x = true <-> lkey x = k).
+Proof. split; [exact sort_natural_keys|exact same_key_eq]. Qed.
+Print Assumptions C25_sort_natural_keys.
+
+(* map over an array of hashes: item for item the value of the property, nil where it is missing *)
+Theorem C25_map_hashes : forall (ds : list (list (str * val))) (k : str),
+  f_map2 (VList (map VDict ds)) (VStr k) = FOk (VList (map (prop_or_nil k) ds)).
+Proof. exact map_hashes. Qed.
+Print Assumptions C25_map_hashes.
+
+(* a single hash, undefined, a nil item (whole result nil), a number among the items (FilterError) *)
+Theorem C25_map_other_inputs : forall k : str,
+  (forall d, f_map2 (VDict d) (VStr k) = FOk (VList [prop_or_nil k d])) /\
+  f_map2 VUndef (VStr k) = FOk (VList []) /\
+  (forall ds rest, f_map2 (VList (map VDict ds ++ VNil :: rest)) (VStr k) = FOk VNil) /\
+  (forall ds z rest, f_map2 (VList (map VDict ds ++ VInt z :: rest)) (VStr k) = FErr ELiquid).
+Proof. exact map_other_inputs. Qed.
+Print Assumptions C25_map_other_inputs.
+
+(* default, for every value: the argument exactly for nil, undefined, false (unless allow_false is the boolean true) and
+   the empty string / array / hash; the input itself for everything else *)
+Theorem C25_default_all : forall v d : val,
+  (forall af, f_default v d af = FOk (if blank v af then d else v)) /\
+  (forall afv, f_default2 v d afv = FOk (if blank v (match afv with VBool true => true | _ => false end) then d else v)).
+Proof. exact default_all. Qed.
+Print Assumptions C25_default_all.
+
+(* first / last on hashes and on values that are not collections *)
+Theorem C25_first_last_others :
+  (forall k x d, f_first (VDict ((k, x) :: d)) = FOk (VList [VStr k; x])) /\
+  f_first (VDict []) = FOk VNil /\
+  (forall d, f_last (VDict d) = FOk VNil) /\
+  (forall v, match v with VList _ | VDict _ | VUndef => True | _ => f_first v = FOk VNil /\ f_last v = FOk VNil end).
+Proof. exact first_last_others. Qed.
+Print Assumptions C25_first_last_others.
+
+(* ---- numbers: num_Q is the exact value of an operand (int z: z; decimal m e: m / 10^e; anything that is not a number: 0),
+   val_Q the exact value of a result ---- *)
+
+(* plus, minus, times: exact for every pair of inputs; ints stay ints *)
+Theorem C25_plus_minus_times_exact : forall v o : val,
+  let a := math_in v in let b := math_in o in
+  (exists r, f_plus v o = FOk r /\ numeric r /\ (val_Q r == num_Q a + num_Q b)%Q) /\
+  (exists r, f_minus v o = FOk r /\ numeric r /\ (val_Q r == num_Q a - num_Q b)%Q) /\
+  (exists r, f_times v o = FOk r /\ numeric r /\ (val_Q r == num_Q a * num_Q b)%Q) /\
+  (forall x y, a = NInt x -> b = NInt y ->
+     f_plus v o = FOk (VInt (x + y)) /\ f_minus v o = FOk (VInt (x - y)) /\ f_times v o = FOk (VInt (x * y))).
+Proof. exact plus_minus_times_exact. Qed.
+Print Assumptions C25_plus_minus_times_exact.
+
+Theorem C25_abs_exact : forall v : val,
+  exists r, f_abs v = FOk r /\ numeric r /\ (val_Q r == Qabs (num_Q (math_in v)))%Q.
+Proof. exact abs_exact. Qed.
+Print Assumptions C25_abs_exact.
+
+(* at_least: one of the two operands, not below either; at_most: one of the two, not above either *)
+Theorem C25_at_least_at_most_exact : forall v o : val,
+  let a := num_Q (math_in v) in let b := num_Q (math_in o) in
+  (exists r, f_at_least v o = FOk r /\ numeric r /\ ((val_Q r == a \/ val_Q r == b) /\ a <= val_Q r /\ b <= val_Q r)%Q) /\
+  (exists r, f_at_most v o = FOk r /\ numeric r /\ ((val_Q r == a \/ val_Q r == b) /\ val_Q r <= a /\ val_Q r <= b)%Q).
+Proof. exact at_least_at_most_exact. Qed.
+Print Assumptions C25_at_least_at_most_exact.
+
+(* floor: the largest integer not above the value; ceil: the smallest integer not below it *)
+Theorem C25_floor_ceil_exact : forall v : val,
+  let q := num_Q (math_in v) in
+  (exists z, f_floor v = FOk (VInt z) /\ (inject_Z z <= q /\ q < inject_Z (z + 1))%Q) /\
+  (exists z, f_ceil v = FOk (VInt z) /\ (inject_Z (z - 1) < q /\ q <= inject_Z z)%Q).
+Proof. exact floor_ceil_exact. Qed.
+Print Assumptions C25_floor_ceil_exact.
+
+(* round: an integer within one half of the value, the even one at exactly one half *)
+Theorem C25_round_exact : forall v : val,
+  let q := num_Q (math_in v) in
+  exists z, f_round v = FOk (VInt z) /\ (Qabs (q - inject_Z z) <= 1 # 2)%Q /\ ((Qabs (q - inject_Z z) == 1 # 2)%Q -> Z.even z = true).
+Proof. exact round_exact. Qed.
+Print Assumptions C25_round_exact.
+
+(* round with n > 0 digits: ints and decimals of at most n places unchanged; otherwise r * 10^n is the integer nearest to
+   value * 10^n.  Zero digits, nil and undefined: plain round.  Negative digits: 0 (what the code does; undocumented). *)
+Theorem C25_round_digits_exact : forall (v : val) (n : Z), (0 < n)%Z ->
+  let q := num_Q (math_in v) in
+  (forall x, math_in v = NInt x -> f_round2 v (VInt n) = FOk (VInt x)) /\
+  (forall m e, math_in v = NDec m e -> (Z.of_nat e <= n)%Z ->
+     exists r, f_round2 v (VInt n) = FOk r /\ numeric r /\ (val_Q r == q)%Q) /\
+  (forall m e, math_in v = NDec m e -> (n < Z.of_nat e)%Z ->
+     exists r z, f_round2 v (VInt n) = FOk r /\ numeric r /\
+       (val_Q r * inject_Z (pow10 (Z.to_nat n)) == inject_Z z)%Q /\
+       (Qabs (q * inject_Z (pow10 (Z.to_nat n)) - inject_Z z) <= 1 # 2)%Q /\
+       ((Qabs (q * inject_Z (pow10 (Z.to_nat n)) - inject_Z z) == 1 # 2)%Q -> Z.even z = true)) /\
+  (forall k, (k < 0)%Z -> f_round2 v (VInt k) = FOk (VInt 0)) /\
+  f_round2 v (VInt 0) = f_round v /\ f_round2 v VUndef = f_round v /\ f_round2 v VNil = f_round v.
+Proof. exact round_digits_exact. Qed.
+Print Assumptions C25_round_digits_exact.
+
+(* divided_by (repaired): floor division of two ints; a zero divisor is FilterArgumentError; otherwise every result of the
+   model is the exact quotient (result * divisor = dividend) *)
+Theorem C25_divided_by_exact : forall v o : val,
+  let a := math_in v in let b := math_in o in
+  (forall x y, a = NInt x -> b = NInt y ->
+     f_divided_by2 v o = if (y =? 0)%Z then FErr EFilterArg else FOk (VInt (x / y))) /\
+  (mant b = 0%Z -> f_divided_by2 v o = FErr EFilterArg) /\
+  (is_int a && is_int b = false -> forall r, f_divided_by2 v o = FOk r ->
+     numeric r /\ (val_Q r * num_Q b == num_Q a)%Q).
+Proof. exact divided_by_exact. Qed.
+Print Assumptions C25_divided_by_exact.
+
+(* modulo (repaired): a = b * k + r for an integer k, with r between 0 and the divisor, for ints and decimals alike *)
+Theorem C25_modulo_exact : forall v o : val,
+  let a := math_in v in let b := math_in o in
+  (mant b = 0%Z -> f_modulo2 v o = FErr EFilterArg) /\
+  (mant b <> 0%Z ->
+   exists r k, f_modulo2 v o = FOk r /\ numeric r /\
+     (num_Q a == num_Q b * inject_Z k + val_Q r)%Q /\
+     ((0 <= val_Q r /\ val_Q r < num_Q b)%Q \/ (num_Q b < val_Q r /\ val_Q r <= 0)%Q) /\
+     (is_int a && is_int b = true -> exists z, r = VInt z)).
+Proof. exact modulo_exact. Qed.
+Print Assumptions C25_modulo_exact.
+
+(* before the repairs: -7.0 modulo 2 was -1.0 (sign of the dividend) although -7 modulo 2 is 1, and a boolean next to a
+   float raised FilterArgumentError although it is 1 / 0 next to an int *)
+Theorem C25_modulo_old_refuted :
+  f_modulo_old (VDec (-70) 1) (VInt 2) = FOk (VDec (-10) 1) /\ f_modulo2 (VDec (-70) 1) (VInt 2) = FOk (VDec 10 1) /\
+  f_modulo2 (VInt (-7)) (VInt 2) = FOk (VInt 1).
+Proof. vm_compute. repeat split; reflexivity. Qed.
+Print Assumptions C25_modulo_old_refuted.
+
+Theorem C25_math_bool_old_refuted :
+  f_plus_old (VBool true) (VDec 2 1) = FErr EFilterArg /\ f_plus_old (VBool true) (VInt 1) = FOk (VInt 2) /\
+  f_plus (VBool true) (VDec 2 1) = FOk (VDec 12 1).
+Proof. vm_compute. repeat split; reflexivity. Qed.
+Print Assumptions C25_math_bool_old_refuted.
+
 (* non-vacuity *)
 Example C25_split_join_nonvacuous :
   f_split (VStr (lit "a,,b,")) (VStr (lit ",")) = FOk (VList [VStr (lit "a"); VStr []; VStr (lit "b"); VStr []]).
 Proof. vm_compute. reflexivity. Qed.
+
+(* second part: the hypotheses are satisfiable and the models compute *)
+Example C25_divided_by_nonvacuous :
+  f_divided_by2 (VDec 3 1) (VDec 1 1) = FOk (VDec 30 1) /\ f_divided_by2 (VInt 1) (VDec 1 1) = FOk (VDec 100 1) /\
+  f_divided_by2 (VInt 20) (VDec 70 1) = FErr EOtherForeign /\ f_divided_by2 (VDec 75 1) (VDec 0 1) = FErr EFilterArg.
+Proof. vm_compute. repeat split; reflexivity. Qed.
+Example C25_round_digits_nonvacuous :
+  f_round2 (VDec 183357 3) (VInt 2) = FOk (VDec 18336 2) /\ f_round2 (VDec 125 2) (VInt 1) = FOk (VDec 12 1) /\
+  f_round2 (VInt 1234) (VInt (-1)) = FOk (VInt 0) /\ f_round2 (VDec 155 2) (VStr (lit "1")) = FOk (VDec 16 1).
+Proof. vm_compute. repeat split; reflexivity. Qed.
+Example C25_sort_natural_nonvacuous :
+  f_sort_natural (VList [VStr (lit "b"); VNil; VStr (lit "A"); VInt 10; VStr (lit "a")]) =
+  FOk (VList [VInt 10; VStr (lit "A"); VStr (lit "a"); VStr (lit "b"); VNil]).
+Proof. vm_compute. reflexivity. Qed.
+Example C25_strip_newlines_nonvacuous :
+  strip_newlines_s [97; 10; 98; 13; 10; 99; 13; 100; 13; 13; 10]%N = [97; 98; 99; 13; 100; 13]%N /\
+  strip_s [28; 32; 97; 32; 98; 31; 9]%N = [97; 32; 98]%N.
+Proof. vm_compute. split; reflexivity. Qed.
